@@ -744,8 +744,10 @@ class PWLCalibrationConstraints(keras.constraints.Constraint):
     self.lengths = lengths
     self.output_min = output_min
     self.output_max = output_max
-    self.output_min_constraints = output_min_constraints
-    self.output_max_constraints = output_max_constraints
+    self.output_min_constraints = pwl_calibration_lib.BoundConstraintsType(
+        output_min_constraints)
+    self.output_max_constraints = pwl_calibration_lib.BoundConstraintsType(
+        output_max_constraints)
     self.num_projection_iterations = num_projection_iterations
 
     canonical_convexity = utils.canonicalize_convexity(self.convexity)
